@@ -343,6 +343,37 @@ type MutRoot struct {
 // named empty interface type
 type NamedAny interface{}
 
+// self-referential named array type
+type RecArr [1]*RecArr
+
+// byte-kind type with value-receiver unmarshaling (slices of it are not base64)
+type VUByte uint8
+
+func (VUByte) UnmarshalJSON(b []byte) error {
+	_, err := strconv.Atoi(string(b))
+	return err
+}
+func (v VUByte) MarshalJSON() ([]byte, error) { return []byte(strconv.Itoa(int(v) + 1)), nil }
+
+// integer kind with MarshalJSON on the value receiver (map keys are still written in decimal)
+type VMInt int
+
+func (v VMInt) MarshalJSON() ([]byte, error) { return []byte(fmt.Sprintf(`{"mj":%d}`, int(v))), nil }
+
+// single-field structs wrapping a func / a chan, with their own marshaling methods
+type LazyFn struct{ f func() string }
+
+func (l LazyFn) MarshalJSON() ([]byte, error) {
+	if l.f == nil {
+		return []byte(`"nil"`), nil
+	}
+	return []byte(strconv.Quote(l.f())), nil
+}
+
+type ChanBox struct{ c chan int }
+
+func (c ChanBox) MarshalText() ([]byte, error) { return []byte(fmt.Sprintf("cap%d", cap(c.c))), nil }
+
 // field names and tags beyond ASCII: keys match under Unicode simple case folding
 type NonASCIIKeys struct {
 	Café    int
